@@ -303,6 +303,59 @@ pub fn history_tree_j(c: &Collector, prop: &'static str, geom: (u32, u32), ops: 
     c.bound("tree_alphabet", json!(ops.iter().map(|o| o.short()).collect::<Vec<_>>()));
 }
 
+/// Histories through ONE parser: every word of 1..=depth pieces is fed as a single stream (chars and
+/// bytes; once in one call, once piece by piece) to one parser on a fresh screen and judged against
+/// the model. State the *parser* keeps between sequences (a memo of the last designator / title / mode
+/// it passed on, a reused parameter buffer) is invisible to the per-operation trees on the Screen,
+/// where every parser-path operation gets a parser of its own.
+pub fn parser_words(c: &Collector, prop: &'static str, geom: (u32, u32), pieces: &[&str], depth: usize, utf8: bool) {
+    let base = vec![Base { columns: geom.0, lines: geom.1, script: vec![], screen: memterm::screen::Screen::new(geom.0, geom.1) }];
+    let enc = |s: &str| -> Vec<u8> {
+        if utf8 {
+            s.as_bytes().to_vec()
+        } else {
+            s.chars().map(|ch| ch as u32 as u8).collect()
+        }
+    };
+    let mut words: Vec<Vec<usize>> = vec![vec![]];
+    let mut all: Vec<Vec<usize>> = Vec::new();
+    for _ in 0..depth {
+        let mut next = Vec::with_capacity(words.len() * pieces.len());
+        for w in &words {
+            for i in 0..pieces.len() {
+                let mut x = w.clone();
+                x.push(i);
+                next.push(x);
+            }
+        }
+        all.extend(next.iter().cloned());
+        words = next;
+    }
+    let pieces_owned: Vec<String> = pieces.iter().map(|s| s.to_string()).collect();
+    let all2 = all;
+    sweep(
+        c,
+        &base,
+        move |_| {
+            let mut v = Vec::with_capacity(all2.len() * 3);
+            for w in &all2 {
+                let whole: String = w.iter().map(|i| pieces_owned[*i].as_str()).collect();
+                v.push(Op::Feed(vec![whole.clone()], utf8));
+                v.push(Op::FeedBytes(vec![enc(&whole)], utf8));
+                if w.len() > 1 {
+                    v.push(Op::FeedBytes(w.iter().map(|i| enc(&pieces_owned[*i])).collect(), utf8));
+                }
+            }
+            v
+        },
+        |c, t, local| {
+            local.count("parser_words");
+            refine_all(c, prop, "E1.parser-words", t, local);
+        },
+    );
+    c.bound(&format!("parser_words_{}", if utf8 { "utf8" } else { "8bit" }), json!({"pieces": pieces.iter().map(|s| s.escape_default().to_string()).collect::<Vec<_>>(), "depth": depth}));
+}
+
 // =====================================================================  C05
 pub fn c05_ops(b: &Base) -> Vec<Op> {
     let (c, l) = (b.columns, b.lines);
@@ -587,6 +640,33 @@ pub fn c07(c: &Collector, g: &mut Guard) {
             Op::Cup(Some(2), Some(2)),
         ],
         if c.thorough() { 6 } else { 5 },
+    );
+    // a second tree around the rendition: every site that changes it (SGR, DECRC, DECSCNM, reset)
+    // between two erasures of whole rows / the whole screen (a cached blank row or cell keyed on the
+    // rendition must be dropped by each of them)
+    history_tree(
+        c,
+        "C07",
+        (3, 2),
+        vec![
+            Op::Sgr(vec![44]),
+            Op::Sgr(vec![0]),
+            Op::SaveCursor,
+            Op::RestoreCursor,
+            Op::Ed(Some(2)),
+            Op::Ed(Some(0)),
+            Op::El(Some(2)),
+            Op::Sm(vec![5], true),
+            Op::Reset,
+        ],
+        if c.thorough() { 6 } else { 5 },
+    );
+    history_tree(
+        c,
+        "C07",
+        (3, 2),
+        vec![Op::Sgr(vec![44]), Op::Sgr(vec![0]), Op::SaveCursor, Op::RestoreCursor, Op::Ed(Some(2)), Op::El(Some(2))],
+        if c.thorough() { 8 } else { 6 },
     );
     c.bound("geometries", json!(spec.geoms));
     c.bound("selectors", json!("{absent,0,1,2,3,4,5,9999}; ECH counts {absent,0,1..max+2,9999}"));
